@@ -94,7 +94,7 @@ Qed.
 Lemma step_gate c e : bytes_ok (spool c) = true -> (match e with EData d => bytes_ok d = true | _ => True end) ->
   let '(c1, o1) := step c e in gate_post c c1 o1 /\ bytes_ok (spool c1) = true.
 Proof.
-  intros Hok He. destruct e as [d|m|]; cbn [step].
+  intros Hok He. destruct e as [d|m| |m]; cbn [step].
   - destruct (closed c). { split; [split; [auto|reflexivity]|exact Hok]. }
     pose proof (data_received_post c d Hok He) as HP.
     unfold data_received. rewrite data_received_ctl_loop' in *.
@@ -109,6 +109,14 @@ Proof.
     destruct (send_message c _) as [[c1 o1] ok]. destruct Hq as [Q1 Q2]. destruct Hk as (_ & _ & _ & K4).
     split; [split; [unfold sset; rewrite Q1; auto|intros _; exact Q2]|rewrite K4; exact Hok].
   - split; [split; [auto|reflexivity]|exact Hok].
+  - destruct (closed c). { split; [split; [auto|reflexivity]|exact Hok]. }
+    destruct (normalize_opts (opts m)) as [os|e]; [|split; [split; [auto|reflexivity]|exact Hok]].
+    unfold pool_send_message. destruct (no_response_masked _). { split; [split; [auto|reflexivity]|exact Hok]. }
+    set (m' := strip_no_response _).
+    pose proof (send_message_quiet c m') as Hq.
+    pose proof (send_message_ok c m') as Hk. cbv zeta in Hk.
+    destruct (send_message c m') as [[c1 o1] ok]. destruct Hq as [Q1 Q2]. destruct Hk as (_ & _ & _ & K4).
+    split; [split; [unfold sset; rewrite Q1; auto|intros _; exact Q2]|rewrite K4; exact Hok].
 Qed.
 
 (* over every history of data chunks, outgoing messages and connection loss: as long as no CSM has
